@@ -32,6 +32,11 @@ def correspondence(ctx):
     nb, nstat, nfails = array_synonyms(ctx, r)
     out["disagreements"] += nb
     out["failing_inputs"] += nfails
+    ab, astat, afails = alias_values(ctx, r)
+    out["disagreements"] += ab
+    out["failing_inputs"] += afails
+    nstat["array_synonym_checks"] += astat.pop("alias_value_checks")
+    nstat.update(astat)
     out["stats"]["setter_steps"] = len(pairs)
     out["stats"].update(nstat)
     out["stats"]["traces_validated_against_impl"] += len(pairs) + nstat["array_synonym_checks"]
@@ -83,3 +88,59 @@ def array_synonyms(ctx, r):
                     dis.append(f"numpy momentum array {sig}: assigning [{syn!r}] then reading [{g!r}] gives {got}")
                     fails.append({"key": f"numpy-setitem:{syn}", "what": dis[-1][:300], "code": None})
     return dis[:10], {"array_synonym_checks": n}, fails[:3]
+
+
+ALIAS = {"px": "x", "py": "y", "pt": "rho", "pt2": "rho2", "pz": "z", "p": "mag", "p2": "mag2", "pseudorapidity": "eta", "E": "t", "e": "t", "energy": "t",
+         "E2": "t2", "e2": "t2", "energy2": "t2", "M": "tau", "m": "tau", "mass": "tau", "M2": "tau2", "m2": "tau2", "mass2": "tau2",
+         "et": "Et", "transverse_energy": "Et", "et2": "Et2", "transverse_energy2": "Et2", "mt": "Mt", "transverse_mass": "Mt",
+         "mt2": "Mt2", "transverse_mass2": "Mt2"}
+
+
+def alias_values(ctx, r):
+    """every derived momentum name returns EXACTLY what its geometric name returns: as attributes of NumPy and Awkward momentum arrays
+    (all elements), and inside numba-compiled code for every alias numba's typing context resolves"""
+    import numpy
+    import awkward as ak
+    dis, fails, n = [], [], 0
+    sigs = C.ALLSIGS if ctx.tier == "thorough" else C.SIG2 + r.sample(C.SIG3, 3) + r.sample(C.SIG4, 5)
+    for sig in sigs:
+        rows = [C.cart_to_stored(sig, p) for p in C.strata_points(len(sig) + 1, r, n_random=2)[:5]]
+        for tag, arr in (("numpy", C.np_array("m", sig, rows)), ("awkward", C.ak_array("m", sig, rows))):
+            for syn, geo in ALIAS.items():
+                if not hasattr(arr, geo):
+                    continue
+                n += 1
+                try:
+                    a, b = numpy.asarray(ak.to_numpy(getattr(arr, syn)) if tag == "awkward" else getattr(arr, syn)), \
+                        numpy.asarray(ak.to_numpy(getattr(arr, geo)) if tag == "awkward" else getattr(arr, geo))
+                    same = a.shape == b.shape and bool(numpy.all((a == b) | (numpy.isnan(a) & numpy.isnan(b))))
+                    why = f"{a.tolist()} vs {b.tolist()}"
+                except Exception as e:  # noqa: BLE001
+                    same, why = False, f"{type(e).__name__}: {str(e)[:60]}"
+                if not same:
+                    dis.append(f"{tag} momentum array {sig}: .{syn} differs from .{geo}: {why}"[:300])
+                    fails.append({"key": f"{tag}-alias:{syn}", "what": dis[-1], "code": None})
+    # numba: one compiled function per momentum dimension returning (alias, geometric) pairs
+    from harness import c07, symobj
+    import multiprocessing as mp
+    jobs = []
+    for d in (2, 3, 4):
+        tok = symobj.vtoken("m", r.choice(C.SIGS[d]), 1)
+        names = {nm for nm, e in c07.api_expressions(tok)[0] if e == f"v.{nm}"}
+        pairs = [(s_, g) for s_, g in ALIAS.items() if s_ in names and g in names]
+        if pairs:
+            jobs.append((f"def f(v):\n    return ({', '.join(f'v.{s_}, v.{g}' for s_, g in pairs)},)\n", [tok], pairs))
+    with mp.get_context("spawn").Pool(3) as pool:
+        res = pool.map(c07.probe_worker, [(j[0], j[1]) for j in jobs])
+    for (src, toks, pairs), (_, _, interp, comp) in zip(jobs, res):
+        n += len(pairs)
+        if comp and comp[0] == "raises":
+            dis.append(f"numba: reading the momentum aliases of {toks[0]} does not compile: {comp}")
+            fails.append({"key": "numba-alias:compile", "what": dis[-1], "code": c07.probe_replay(src, toks)})
+            continue
+        for k, (s_, g) in enumerate(pairs):
+            a, b = comp[2 * k], comp[2 * k + 1]
+            if not c07.same(a, b) or not c07.same(a, interp[2 * k]):
+                dis.append(f"numba-compiled {toks[0]}: .{s_} = {a} but .{g} = {b} (interpreter .{s_} = {interp[2 * k]})")
+                fails.append({"key": f"numba-alias:{s_}", "what": dis[-1][:300], "code": c07.probe_replay(src, toks)})
+    return dis[:10], {"alias_value_checks": n, "numba_alias_programs": len(jobs)}, fails[:4]
